@@ -183,6 +183,9 @@ def run(pid, tier):
         run_drivers(w + '/plan2.txt', pl, range(len(plan), len(pl)), w + '/long_rec.ndjson')
         # the same long tokens in a C89 build of the library (no stdbool: scpi_bool_t is an unsigned char there)
         run_drivers(w + '/plan2.txt', pl, range(len(plan), len(pl)), w + '/long_rec89.ndjson', exe=lib.build('drv_lexer', ['drv_lexer.c'], config='c89'), tag='c89')
+        # strings with bytes above 127 and everything else of the 'str' / 'all' groups where plain char is unsigned (ARM, PowerPC)
+        idx_u = [i for i, g in enumerate(plan) if g[0] in ('str', 'all', 'rstr')]
+        run_drivers(w + '/plan.txt', plan, idx_u, w + '/uchar_rec.ndjson', exe=lib.build('drv_lexer', ['drv_lexer.c'], config='uchar'), tag='uchar')
         return len(pl) - len(plan)
     lpool = concurrent.futures.ThreadPoolExecutor(max_workers=1)
     ljob = lpool.submit(long_pipeline)
@@ -192,6 +195,7 @@ def run(pid, tier):
     if ljob.result() > 0:
         validate(rep, w + '/long_rec.ndjson', 'long-tokens', par=3)
         validate(rep, w + '/long_rec89.ndjson', 'long-tokens-c89', par=3)
+        validate(rep, w + '/uchar_rec.ndjson', 'unsigned-char-build', par=3)
     lpool.shutdown()
     for j in mcjobs:
         name, r = j.result()
